@@ -21,4 +21,9 @@ def build(src, tier):
     wm = base_world(src)
     Q.install(wm)
     out += [(wm, I.marker_targets() + [I.t_clear('clear_spy')])]
+    # which invocations are logged as internal ones is decided by SignalSource.is_inner_signal: its contract (true
+    # exactly for the built-in signals, whatever their names look like) is part of this property too
+    from . import C25
+    wr = base_world(src)
+    out += [(wr, [C25.t_is_inner('name'), C25.t_is_inner('number')])]
     return out
